@@ -7,7 +7,7 @@ HOOKS = {
     "add_only": True,
 }
 ENGINES = [
-    {"name": "grid", "path": "/verif/mc/props", "serves_properties": ["C02", "C04", "C05", "C06", "C07", "C17"],
+    {"name": "grid", "path": "/verif/mc/props", "serves_properties": ["C02", "C04", "C05", "C06", "C07", "C16", "C17"],
      "kind_free_text": "complete Cartesian products of finite input alphabets executed on the real code and compared with an explicit oracle or metamorphic relation"},
     {"name": "fault", "path": "/verif/mc/props/C08.py", "serves_properties": ["C08"],
      "kind_free_text": "fault-point enumerator: public-API fault menu x position and sys.settrace call-level injection, snapshot oracle"},
@@ -134,5 +134,15 @@ CHECKS["C17"] = dict(
          "constructor and setter agree, None reads back None, and a later getB is finite or asks for missing input.",
     note="The spec table in mc/props/C17.py is my reading of the documented formats; zero sizes, r1==r2, phi1==phi2 are excluded as "
          "ambiguous (counted in the evidence); numeric strings, bools, NaN/inf, None entries are not generated.")
+CHECKS["C16"] = dict(
+    engine="grid", level="exploration", design_ref="DESIGN.md §4 C16",
+    technique="bounded-exhaustive enumeration of mesh input variants (face orders x all flip subsets x vertex renumberings; face deletions; part interleavings) against ground truth by construction",
+    text="Tetrahedron: all 4! face orders x 2^4 flips x 4! vertex renumberings (9216); prism, octahedron (all 2^8 flips x every first "
+         "face), cube (all 2^12 flips), non-convex L- and U-prisms (all flip subsets of size <=2/3 and their complements) with reversed / "
+         "rotated face orders and vertex renumberings; every deletion of <=2 faces (open); two disjoint copies in 4 interleavings x flip "
+         "subsets (disconnected, each part must still be oriented outwards and give the sum field); interpenetrating copies at 4 "
+         "general-position offsets and one-sided spikes in 4 group orders (self-intersecting); scales 1e-3, 1, 1e2.",
+    note="Truth comes from the construction (self-tested each run: closed consistently oriented manifold with the known positive "
+         "volume). Touching/coplanar contacts are excluded as ambiguous. Scales below 1e-3 belong to C12.")
 _todo = "check not built yet in this session (planned, see DESIGN.md §4); nothing is claimed for it"
 NOT_APPLICABLE = [{"property_id": f"C{i:02d}", "reason": _todo} for i in range(1, 21) if f"C{i:02d}" not in CHECKS]
